@@ -82,6 +82,8 @@ func (c cfgSpec) notInForce() *fromSpec {
 
 func (c cfgSpec) history() string {
 	switch {
+	case c.Chain != nil:
+		return "after-chain"
 	case c.from() == nil:
 		return "fresh-boot"
 	case c.Refused:
